@@ -128,8 +128,8 @@ func (rc *runCtx) translateAll(only func(short string) bool) ([]*Obligation, []*
 		if spec == nil && !sweep {
 			continue
 		}
-		if spec != nil && spec.Trusted && !sweep {
-			continue
+		if spec != nil && spec.Trusted && !sweep && len(spec.Ats) == 0 && len(spec.Loops) == 0 {
+			continue // assumed contract without body obligations
 		}
 		if len(fn.Blocks) == 0 || fn.Synthetic != "" {
 			continue
@@ -516,6 +516,22 @@ func (rc *runCtx) check(prop string, t0 time.Time) int {
 	for _, p := range problems {
 		fmt.Printf("note  %s\n", p)
 	}
+	// bounded stand-ins (not proofs)
+	bounded := rc.runBounded(prop)
+	for _, br := range bounded {
+		if br.OK {
+			fmt.Printf("ok    bounded/%-82s %d cases, %.1fs (BOUNDED, not a proof: %s)\n", br.Name, br.Cases, br.WallS, br.Bound)
+			continue
+		}
+		violations++
+		os.MkdirAll(repDir, 0755)
+		base := filepath.Join(repDir, "bounded_"+fileSafe(br.Name))
+		b, _ := json.MarshalIndent(map[string]interface{}{"property": prop, "obligation": "bounded/" + br.Name, "kind": "bounded stand-in", "bound": br.Bound,
+			"failing_inputs": br.Failures, "replay": br.Cmd, "note": "adj is the adjacency matrix in binary, bit i*n+j set = task i depends on task j, tasks named a,b,c,..."}, "", " ")
+		os.WriteFile(base+".json", b, 0644)
+		fmt.Printf("FAIL  bounded/%s: %v\n", br.Name, br.Failures)
+		fmt.Printf("VIOLATION property=%s replay=%s\n", prop, base+".json")
+	}
 	// evidence
 	var fr []funcReport
 	externUsed := map[string]bool{}
@@ -590,6 +606,9 @@ func (rc *runCtx) check(prop string, t0 time.Time) int {
 		"known_findings_hit": knownHit, "samples": samples, "per_obligation_timeout_s": rc.timeoutS,
 		"integers": "mathematical (SMT Int); machine width not modelled", "contract_files": relFiles(w.C.Files, w.Repo),
 		"obligation_patterns": pats,
+	}
+	if len(bounded) > 0 {
+		cov["bounded"] = bounded
 	}
 	ev := map[string]interface{}{"property_id": prop, "tier": rc.tier, "seed": rc.seed, "level": "proof", "coverage": cov,
 		"assumptions": assumptions, "wall_s": time.Since(t0).Seconds(), "violations": violations}
